@@ -233,3 +233,99 @@ func checkC08(s *C08Spec) Result {
 	res.Classes = append(res.Classes, fmt.Sprintf("depth:%d", len(s.Steps)))
 	return res
 }
+
+// ---- C08Lines: the lines of an output are redactables too --------------------------
+
+// C08Lines: a payload is printed; each line of the output (a well-formed
+// redactable according to C03) is printed again, followed by an operand
+// whose bytes could complete what the line ends with.
+type C08Lines struct {
+	Payload B      `json:"payload"`        // unsafe payload over the byte alphabet, with line feeds
+	Safe    bool   `json:"safe,omitempty"` // the payload is printed as safe text instead
+	Cont    B      `json:"cont"`           // what follows the line
+	Route   string `json:"route"`          // Sprintf, Sprint, SB, SafeCont
+}
+
+func init() {
+	register("C08Lines", "C08", func() interface{} { return &C08Lines{} }, func(s interface{}) Result { return checkC08Lines(s.(*C08Lines)) })
+}
+
+func checkC08Lines(s *C08Lines) Result {
+	var res Result
+	var out redact.RedactableString
+	if s.Safe {
+		out = redact.Sprint(redact.Safe(string(s.Payload)))
+	} else {
+		out = redact.Sprint(string(s.Payload))
+	}
+	lines := bytes.Split([]byte(out), []byte("\n"))
+	res.NonTrivial = len(lines) > 1 && hasMarkerish(s.Payload)
+	res.Classes = append(res.Classes, "route:"+s.Route)
+	// the lines printed one after the other, and joined, are well-formed
+	if s.Route == "Lines" {
+		var rl []redact.RedactableString
+		var args []interface{}
+		for _, l := range lines {
+			rl = append(rl, redact.RedactableString(l))
+			args = append(args, redact.RedactableString(l))
+		}
+		for name, got := range map[string][]byte{
+			"Sprint(lines...)":                 []byte(redact.Sprint(args...)),
+			"Join(\"\", lines)":                []byte(redact.Join("", rl)),
+			"Join(cont as safe text, lines)":   []byte(redact.Join(redact.Sprint(redact.Safe(string(s.Cont))), rl)),
+			"Join(cont as unsafe text, lines)": []byte(redact.Join(redact.Sprint(string(s.Cont)), rl)),
+			"Sprintf(\"%v|%s\", line0, lineN)": []byte(redact.Sprintf("%v"+string(s.Cont)+"%s", args[0], args[len(args)-1])),
+		} {
+			if !WF(got) {
+				res.Err = fmt.Errorf("the lines of Sprint(%s) = %s, printed again: %s gives %s: not well-formed", q(s.Payload), q([]byte(out)), name, q(got))
+				return res
+			}
+		}
+		return res
+	}
+	for i, l := range lines {
+		if !WF(l) {
+			res.Err = fmt.Errorf("line %d of Sprint(%s) = %s is not well-formed", i, q(s.Payload), q(l))
+			return res
+		}
+		line := redact.RedactableString(l)
+		var got []byte
+		switch s.Route {
+		case "Sprintf":
+			got = []byte(redact.Sprintf("%s%s", line, string(s.Cont)))
+		case "Sprint":
+			got = []byte(redact.Sprint(line, s.Cont)) // (a []byte operand: no space in between... it is not a string)
+		case "SB":
+			var sb redact.StringBuilder
+			sb.Print(line)
+			sb.UnsafeBytes(s.Cont)
+			got = []byte(sb.RedactableString())
+		default: // SafeCont: what follows is safe text
+			got = []byte(redact.Sprintf("%s%s", line, redact.Safe(string(s.Cont))))
+			if !WF(got) {
+				res.Err = fmt.Errorf("line %s of Sprint(%s) followed by the safe text %s prints %s: not well-formed", q(l), q(s.Payload), q(s.Cont), q(got))
+				return res
+			}
+			continue
+		}
+		if !LS(got) {
+			res.Err = fmt.Errorf("%s: line %s of Sprint(%s) followed by the unsafe operand %s prints %s: not well-formed and line-safe", s.Route, q(l), q(s.Payload), q(s.Cont), q(got))
+			return res
+		}
+		// nothing of the unsafe operand is outside envelopes (its line feeds apart)
+		wantSafe := append([]byte(nil), delEnv(l)...)
+		if s.Route == "Sprint" {
+			// (Sprint puts a space between operands that are not strings)
+			wantSafe = bytes.TrimSuffix(wantSafe, nil)
+		}
+		gotSafe := delEnv(got)
+		rest := bytes.TrimPrefix(gotSafe, wantSafe)
+		// (safe text that ends in a truncated sequence is followed by one '?' guard)
+		rest = bytes.TrimPrefix(rest, []byte("?"))
+		if len(rest) == len(gotSafe) && len(wantSafe) > 0 || len(bytes.Trim(rest, "\n ")) != 0 {
+			res.Err = fmt.Errorf("%s: line %s of Sprint(%s) followed by the unsafe operand %s prints %s: outside envelopes is %s, want %s + line feeds only", s.Route, q(l), q(s.Payload), q(s.Cont), q(got), q(gotSafe), q(wantSafe))
+			return res
+		}
+	}
+	return res
+}
